@@ -223,6 +223,10 @@ def run_task(task):
                     settings=_hyp_settings(n, mode == "shrink", stream.steps[tier]))
             except (TargetHit, ShrinkBudgetOver):
                 pass
+        elif stream.kind == "fuzz":
+            out = _run_fuzz(prop, stream, tier, seed, widx, n, scratch)
+            out["widx"], out["seed"], out["wall"] = widx, seed, time.time() - t0
+            return out
         else:
             raise RuntimeError("unknown stream kind %r" % stream.kind)
         out = col.summary()
@@ -235,6 +239,59 @@ def run_task(task):
     out["widx"] = widx
     out["seed"] = seed
     out["wall"] = time.time() - t0
+    return out
+
+
+def _run_fuzz(prop, stream, tier, seed, widx, n, scratch):
+    """One atheris campaign (own process) + minimisation of what it found."""
+    import subprocess
+    script, extra = stream.make(tier)
+    script = os.path.join(core.VERIF, script)
+    corpus = os.path.join(scratch, "corpus")
+    os.makedirs(corpus)
+    seeds = os.path.join(core.VERIF, "fuzz", "corpus", "%s_%s" % (prop, stream.name))
+    if widx % 2 == 1 and os.path.isdir(seeds):      # odd workers start from the seed corpus,
+        for fn in sorted(os.listdir(seeds)):          # even workers from an empty one
+            shutil.copy(os.path.join(seeds, fn), corpus)
+    summ = os.path.join(scratch, "summary.json")
+    env = dict(os.environ, VERIF_FUZZ_OUT=summ, VERIF_FUZZ_RUNS=str(n))
+    cmd = [sys.executable, script, "-seed=%d" % ((seed % 2147483646) + 1), "-runs=-1",
+           "-handle_alrm=0", "-artifact_prefix=%s/" % scratch] + list(extra) + [corpus]
+    with open(os.path.join(scratch, "fuzz.log"), "wb") as log:
+        try:
+            subprocess.run(cmd, env=env, stdout=log, stderr=log, cwd=scratch,
+                           timeout=max(600, n * stream.timeout / 20.0))
+        except subprocess.TimeoutExpired:
+            pass
+    if not os.path.exists(summ):
+        with open(os.path.join(scratch, "fuzz.log"), "rb") as log:
+            tail = log.read()[-3000:].decode("utf-8", "replace")
+        return {"stream": stream.name, "error": "fuzz target wrote no summary:\n" + tail}
+    with open(summ) as f:
+        out = json.load(f)
+    out["nontrivial"] = list(out["nontrivial"])
+    raw = out.pop("raw", {})
+    if raw:
+        # re-judge and minimise in this (plain, uninstrumented) process
+        import importlib.util
+        spec = importlib.util.spec_from_file_location("fuzz_target_" + prop, script)
+        tgt = importlib.util.module_from_spec(spec)
+        spec.loader.exec_module(tgt)
+        sys.path.append(os.path.join(core.VERIF, ".deps"))
+        import atheris
+        from . import fuzz as vfuzz
+        confirmed = {}
+        for key, hx in raw.items():
+            if key.startswith("harness:"):
+                confirmed[key] = out["failures"][key]
+                continue
+            small = vfuzz.minimise(tgt.decode, stream.check, key, bytes.fromhex(hx))
+            case = tgt.decode(atheris.FuzzedDataProvider(small))
+            res = guarded(stream.check, case, stream.timeout)
+            if not res.ok and res.key == key:
+                confirmed[key] = dict(out["failures"][key], smallest=case,
+                                      size=len(canonical(case)), detail=res.detail)
+        out["failures"] = confirmed
     return out
 
 
@@ -435,7 +492,7 @@ def main(argv=None):
     shrink_tasks = []
     for sname, key, b in to_shrink[:8]:
         s = by_name[sname]
-        if s.kind == "enum" or key == "hang":
+        if s.kind in ("enum", "fuzz") or key == "hang":
             continue
         n = max(1, int(s.budget[args.tier] * args.scale))
         shrink_tasks.append(((sname, key), (prop, sname, args.tier, b["seed"], b["widx"], nW,
